@@ -15,7 +15,7 @@ def _why(c, e):
 def run(ck):
     ck.rule = ("TLC enumerates caller {A,B} x method {validate, instruction} x 10 hostname classes (valid, upper-case, white space around, bare, "
                "apex-suffixed, upper-case apex, ACME-zone, white space inside the apex / ACME zone, non-ASCII label) x CNAME answer {own target, other client's target, junk, none} x stored binding "
-               "{none, caller, other client} x proof {valid for the denoted name, valid for the string as sent, missing, other subject, tampered signature, expired, too few bits}, and all "
+               "{none, caller, other client} (also with the DHT failing the read of the binding record: retryably on every attempt / otherwise) x proof {valid for the denoted name, valid for the string as sent, missing, other subject, tampered signature, expired, too few bits}, and all "
                "histories of <=3 validations by two clients with a changing DNS answer; every case runs on the real handlers over the "
                "in-memory KV provider with real proofs of work; the stored bindings are read back after every call; histories are judged "
                "by TLC on the recorded outcomes; non-trivial = every case")
@@ -42,7 +42,7 @@ def run(ck):
 
     def sig(c, e, o):
         if o["ok"] and e["refuse"]:
-            return "C29:accepts:%s:%s" % (c["method"], _why(c, e))
+            return "C29:accepts:%s:%s%s" % (c["method"], _why(c, e), "" if c.get("fault", "none") == "none" else ":binding-read-" + c["fault"])
         if o["post"] not in e["posts"]:
             return "C29:rebinds:%s-to-%s:%s" % ("none" if o["pre"] == "none" else ("same" if o["pre"] == c["caller"] else "other"),
                                                "none" if o["post"] == "none" else ("caller" if o["post"] == c["caller"] else "other"), _why(c, e))
